@@ -1490,6 +1490,8 @@ class Repository:
 
                 if finished:
                     logger.info('Finished writing file %s', file_path)
+                    # A longer file may have existed at this path already
+                    os.truncate(restore_path, files_sizes[file_path])
                     self.restore_metadata(restore_path, metadata)
                     finished_tracker.update()
 
@@ -1502,6 +1504,7 @@ class Repository:
         chunks_references = defaultdict(list)
         files_digests = {}
         files_metadata = {}
+        files_sizes = {}
         total_bytes = 0
 
         for snapshot_body in snapshots:
@@ -1539,6 +1542,7 @@ class Repository:
                     )
                     chunk_position += chunk_size
 
+                files_sizes[file_path] = chunk_position
                 total_bytes += chunk_position
 
         bytes_tracker = tqdm(
